@@ -517,6 +517,10 @@ func (h5) Gen(prop, tier string, r *simrt.Rng) (any, simrt.Config) {
 		for i, n := 0, 1+r.Intn(3); i < n; i++ {
 			c.EvalSleepNs[r.Intn(len(c.EvalSleepNs))] = tick*int64(simrt.Pick(r, 23, 53, 31))/10 + 177
 		}
+		if len(c.Weights) > 1 && r.Intn(2) == 0 {
+			// … or for longer than a whole repeat window (the weights of the following windows are still their own)
+			c.EvalSleepNs[r.Intn(len(c.EvalSleepNs))] = c.RepeatMs*ms*int64(simrt.Pick(r, 11, 21))/10 + 177
+		}
 	} else if (prop == "C09" || prop == "C02") && !c.Direct && c.PureTicks == 0 && r.Intn(4) == 0 {
 		// slow evaluations instead of stall faults: ticks become overdue while one is being handled
 		tick := h5Interval(c)
@@ -907,8 +911,28 @@ func h5Gauss(env *Env, c *H5Cfg, sh *h5Shared) {
 		}
 		avg = s / float64(len(c.Weights))
 	}
+	massAll := ncdf(float64(rep), mu, sigma) - ncdf(0, mu, sigma)
 	for _, ws := range order {
 		w := wins[ws]
+		// every evaluated tick asks for its share of the bell, whether or not its neighbours were evaluated: a tick
+		// whose share is several iterations does not ask for (almost) nothing. (Lower bound only, against the true
+		// mass of the window: the known normalisation defect F6 makes f1 ask for more, never for less; one iteration
+		// may be pending in the fractional carry.)
+		if massAll > 0 {
+			wgt := 1.0
+			if n := int64(len(c.Weights)); n > 0 {
+				cycle := epochAbs.Add(time.Duration(ws)).Truncate(time.Duration(rep * n))
+				wgt = c.Weights[(epochAbs.Add(time.Duration(ws)).Sub(cycle))/time.Duration(rep)] / avg
+			}
+			for _, q := range w.calls {
+				share := c.Volume * wgt * float64(f) * npdf(float64(q.ArgNs-ws), mu, sigma) / massAll
+				if share >= 4 && float64(q.V) < share/2-1 {
+					env.Violate("C11", "tick-far-below-profile", "gaussian/tick", "window at +%s: the tick at +%s requested %d, its share of the configured volume is %.1f (%s)",
+						dur(ws), dur(q.ArgNs-ws), q.V, share, (h5{}).Describe(c))
+					return
+				}
+			}
+		}
 		if int64(len(w.calls)) != steps {
 			// incomplete window (run started or ended inside it, or ticks were lost while the loop was held up): the
 			// volume clause needs every tick, the peak clause does not - no tick asks for more than one above the
